@@ -1,3 +1,327 @@
-(* placeholder: theorems follow *)
-From CC Require Import Model.Network.
-Example C13_model_runs : True. Proof. exact I. Qed.
+(* C13 — schematic drawings are read as the netlist they depict.
+   "For every drawing built from the supported two-terminal symbols, wires, labelled nodes and a ground symbol, two terminals
+   belong to the same electrical node exactly when they coincide or are joined by a chain of wires; node labels and the ground
+   symbol name the nodes they sit on, and a source's polarity runs from its start to its end terminal unless it is marked
+   reversed.  The translated circuit is electrically identical to the intended netlist, and its solution is unchanged by
+   rotating, translating or rescaling the whole drawing, by splitting wires into segments, or by the order in which symbols
+   were added."
+   Statements only; every proof is [exact <lemma>] (Theory/DrawingThm.v).  Model: Model/Drawing.v (SchematicDiagramParser,
+   DiagramTranslator, circuit_translator_map), runner entry 13 (Model/RunDrawing.v).
+   Vocabulary:
+     [point]                (round(100 x), round(100 y)) of an anchor after elm.round_node;  [drawing] = list of [symbol]s in
+                            insertion order; wires = the symbols of class Line exactly ([wires d] their endpoint pairs);
+     [connected d p q]      reflexive-symmetric-transitive closure of "some wire has endpoints p, q";
+     [equal_potential_nodes d p]   _get_equal_electrical_potential_nodes(p), the while-loop run with fuel #wires + 1;
+     [enum o s]             the list o enumerates the point set s.  Python keeps points in sets; the model takes the iteration
+                            order [oa] of parser.all_nodes and [ou] of parser.unique_nodes as parameters and EVERY theorem
+                            below holds for every admissible pair of orders;
+     [unique_nodes d oa], [unique_node_mapping d oa p], [node_label_mapping d oa ou], [get_node_index d oa ou p]
+                            (= _get_node_index, None = KeyError), [ground_label d oa ou], [components d oa ou];
+     [same_label d oa ou p q]      get_node_index p = get_node_index q;
+     [labels_consistent d]  two Node/LabelNode/Ground symbols with the same text sit on the same class;
+     [labels_functional d]  two such symbols on the same class carry the same text;
+     [labelled_class d p]   some Node/LabelNode/Ground symbol sits on p's class;  [last_label d p] the text of the last one;
+     [map_drawing f d]      every anchor moved by f;  [subdivided d1 w d2 m] = d1 ++ w(start..m) :: w(m..end) :: d2. *)
+From Coq Require Import List Bool ZArith NArith String Permutation.
+From CC Require Import Theory.Field Model.Network Model.Circuit Model.Drawing Theory.DrawingThm Theory.DrawingExamples.
+Import ListNotations.
+
+(* ================= the wire closure ================= *)
+
+(* the loop computes exactly the class of p — for every point p, every wire list, every insertion order of the wires *)
+Theorem C13_closure : forall (d : drawing) (p q : point),
+  In q (equal_potential_nodes d p) <-> connected d p q.
+Proof. exact equal_potential_nodes_spec. Qed.
+Print Assumptions C13_closure.
+
+(* #wires + 1 passes are enough: the unbounded Python loop has stopped by then (a pass without growth is a fixpoint,
+   every productive pass balances at least one more wire) *)
+Theorem C13_closure_fuel : forall (d : drawing) (p : point) (k : nat),
+  iterate (wires d) (S (List.length (wires d)) + k) [p] = equal_potential_nodes d p.
+Proof. exact closure_fuel. Qed.
+Print Assumptions C13_closure_fuel.
+
+(* unique_nodes: whatever the set iteration order, exactly one representative of every class survives *)
+Theorem C13_unique_nodes : forall (d : drawing) (oa : list point), enum oa (all_nodes d) ->
+  (forall u, In u (unique_nodes d oa) -> In u (all_nodes d)) /\
+  (forall p, In p (all_nodes d) -> exists u, In u (unique_nodes d oa) /\ connected d p u) /\
+  (forall u v, In u (unique_nodes d oa) -> In v (unique_nodes d oa) -> connected d u v -> u = v).
+Proof. exact unique_nodes_spec. Qed.
+Print Assumptions C13_unique_nodes.
+
+(* unique_node_mapping identifies exactly the connected points *)
+Theorem C13_closure_mapping : forall (d : drawing) (oa : list point) (p q : point),
+  enum oa (all_nodes d) -> In p (all_nodes d) -> In q (all_nodes d) ->
+  (unique_node_mapping d oa p = unique_node_mapping d oa q <-> connected d p q).
+Proof. exact mapping_eq_iff. Qed.
+Print Assumptions C13_closure_mapping.
+
+(* ================= labels ================= *)
+
+(* every terminal gets a node name; connected terminals the same one (no side condition) *)
+Theorem C13_labels_total : forall (d : drawing) (oa ou : list point),
+  enum oa (all_nodes d) -> enum ou (unique_nodes d oa) -> forall p : point, In p (all_nodes d) ->
+  exists l, get_node_index d oa ou p = Some l.
+Proof. exact index_total. Qed.
+Print Assumptions C13_labels_total.
+
+Theorem C13_labels_connected : forall (d : drawing) (oa ou : list point), enum oa (all_nodes d) ->
+  forall p q, In p (all_nodes d) -> In q (all_nodes d) -> connected d p q -> same_label d oa ou p q.
+Proof. exact index_connected. Qed.
+Print Assumptions C13_labels_connected.
+
+(* distinct classes get distinct names (the `while str(node_index) in node_labels.values()` loop), provided the
+   drawing itself does not put one text on two classes *)
+Theorem C13_labels_injective : forall (d : drawing) (oa ou : list point) (p q : point),
+  enum oa (all_nodes d) -> enum ou (unique_nodes d oa) -> labels_consistent d ->
+  In p (all_nodes d) -> In q (all_nodes d) ->
+  (same_label d oa ou p q <-> connected d p q).
+Proof. exact same_label_iff. Qed.
+Print Assumptions C13_labels_injective.
+
+(* a class carrying label symbols is named by the LAST of them in insertion order, whatever the set orders *)
+Theorem C13_labels_last : forall (d : drawing) (oa ou : list point), enum oa (all_nodes d) ->
+  forall p l, In p (all_nodes d) -> last_label d p = Some l -> get_node_index d oa ou p = Some l.
+Proof. exact index_labelled. Qed.
+Print Assumptions C13_labels_last.
+
+(* a Node/LabelNode/Ground symbol names every terminal of the class it sits on, if no other text sits on that class *)
+Theorem C13_labels : forall (d : drawing) (oa ou : list point), enum oa (all_nodes d) ->
+  forall e p, In e (node_elements d) ->
+  (forall e', In e' (node_elements d) -> connected d (s_start e) (s_start e') -> s_node_id e' = s_node_id e) ->
+  In p (all_nodes d) -> connected d p (s_start e) -> get_node_index d oa ou p = Some (s_node_id e).
+Proof. exact index_label. Qed.
+Print Assumptions C13_labels.
+
+(* ================= ground ================= *)
+
+Theorem C13_ground : forall (d : drawing) (oa ou : list point) (g : symbol),
+  enum oa (all_nodes d) -> enum ou (unique_nodes d oa) ->
+  filter is_ground_sym (node_elements d) = [g] ->
+  (forall e', In e' (node_elements d) -> connected d (s_start g) (s_start e') -> s_node_id e' = s_node_id g) ->
+  ground_label d oa ou = Ok (s_node_id g).
+Proof. exact ground_label_named. Qed.
+Print Assumptions C13_ground.
+
+Theorem C13_ground_is_its_node : forall (d : drawing) (oa ou : list point) (g : symbol),
+  filter is_ground_sym (node_elements d) = [g] ->
+  ground_label d oa ou = match get_node_index d oa ou (s_start g) with Some l => Ok l | None => Err EKeyError end.
+Proof. exact ground_label_one. Qed.
+Print Assumptions C13_ground_is_its_node.
+
+Theorem C13_ground_multiple : forall (d : drawing) (oa ou : list point),
+  (1 < List.length (filter is_ground_sym (node_elements d)))%nat -> ground_label d oa ou = Err EMultipleGround.
+Proof. exact ground_label_many. Qed.
+Print Assumptions C13_ground_multiple.
+
+(* no ground symbol: the reference is the class unique_nodes happens to enumerate first — it depends on the set order *)
+Theorem C13_ground_none : forall (d : drawing) (oa ou : list point),
+  filter is_ground_sym (node_elements d) = [] ->
+  ground_label d oa ou = match ou with
+                         | [] => Err EIndex
+                         | u :: _ => match get_node_index d oa ou u with Some l => Ok l | None => Err EKeyError end
+                         end.
+Proof. exact ground_label_none. Qed.
+Print Assumptions C13_ground_none.
+
+(* ================= polarity and the component list ================= *)
+
+(* a source symbol (DC / complex / AC / rectangular / triangular / sawtooth, voltage or current): terminals
+   (start, end), reversed (end, start), and the component receives the value given to the symbol's constructor
+   unchanged ([c_neg = false]: the constructor negates when reversed, the translator negates again) *)
+Theorem C13_polarity : forall (idx : point -> option label) (s : symbol) (k : ckind) (a b : label),
+  translator_of (s_class s) = Some (TSource k) -> idx (s_start s) = Some a -> idx (s_end s) = Some b ->
+  translate_symbol idx s = Ok (Some {| c_kind := k; c_id := s_name s;
+                                       c_nodes := if s_reverse s then [b; a] else [a; b]; c_neg := false |}).
+Proof. exact translate_source. Qed.
+Print Assumptions C13_polarity.
+
+(* RealCurrentSource / RealVoltageSource: the translator swaps AND negates while the constructor does not negate:
+   a reversed Real source is electrically the unreversed one (deviation from the property, see report) *)
+Theorem C13_polarity_real_source : forall (idx : point -> option label) (s : symbol) (k : ckind) (a b : label),
+  translator_of (s_class s) = Some (TRealSource k) -> idx (s_start s) = Some a -> idx (s_end s) = Some b ->
+  translate_symbol idx s = Ok (Some {| c_kind := k; c_id := s_name s;
+                                       c_nodes := if s_reverse s then [b; a] else [a; b]; c_neg := s_reverse s |}).
+Proof. exact translate_real_source. Qed.
+Print Assumptions C13_polarity_real_source.
+
+(* the translated list: one component per translatable symbol in drawing order, terminals named by the labelling *)
+Theorem C13_components : forall (d : drawing) (oa ou : list point),
+  enum oa (all_nodes d) -> enum ou (unique_nodes d oa) ->
+  (forall s, In s d -> in_scope (s_class s) = true /\ translator_of (s_class s) <> None) ->
+  components d oa ou = Ok (omap (component_of (label_of d oa ou)) d).
+Proof. exact components_spec. Qed.
+Print Assumptions C13_components.
+
+(* ================= invariance ================= *)
+
+(* two admissible pairs of set orders: labelled classes keep their names, and the two labellings identify the same
+   terminals — they differ by an injective renaming of the unlabelled classes only *)
+Theorem C13_order_independent : forall (d : drawing) (oa ou oa' ou' : list point),
+  enum oa (all_nodes d) -> enum ou (unique_nodes d oa) -> enum oa' (all_nodes d) -> enum ou' (unique_nodes d oa') ->
+  (forall p, In p (all_nodes d) -> labelled_class d p -> get_node_index d oa' ou' p = get_node_index d oa ou p) /\
+  (labels_consistent d -> forall p q, In p (all_nodes d) -> In q (all_nodes d) ->
+     (same_label d oa' ou' p q <-> same_label d oa ou p q)).
+Proof. exact order_independent. Qed.
+Print Assumptions C13_order_independent.
+
+Theorem C13_order_independent_renaming : forall (d : drawing) (oa ou oa' ou' : list point),
+  enum oa (all_nodes d) -> enum ou (unique_nodes d oa) -> enum oa' (all_nodes d) -> enum ou' (unique_nodes d oa') ->
+  labels_consistent d ->
+  exists f : label -> label,
+    (forall p l, In p (all_nodes d) -> get_node_index d oa ou p = Some l -> get_node_index d oa' ou' p = Some (f l)) /\
+    (forall p q l l', In p (all_nodes d) -> In q (all_nodes d) -> get_node_index d oa ou p = Some l ->
+       get_node_index d oa ou q = Some l' -> f l = f l' -> l = l') /\
+    (forall p l, In p (all_nodes d) -> labelled_class d p -> get_node_index d oa ou p = Some l -> f l = l).
+Proof. exact order_independent_renaming. Qed.
+Print Assumptions C13_order_independent_renaming.
+
+(* any permutation of the symbol list, wires included *)
+Theorem C13_perm : forall (d d' : drawing) (oa ou oa' ou' : list point), Permutation d d' ->
+  enum oa (all_nodes d) -> enum ou (unique_nodes d oa) -> enum oa' (all_nodes d') -> enum ou' (unique_nodes d' oa') ->
+  (forall p, In p (all_nodes d) <-> In p (all_nodes d')) /\
+  (forall p q, connected d p q <-> connected d' p q) /\
+  (labels_functional d -> forall p, In p (all_nodes d) -> labelled_class d p ->
+     get_node_index d' oa' ou' p = get_node_index d oa ou p) /\
+  (labels_functional d -> labels_consistent d -> forall p q, In p (all_nodes d) -> In q (all_nodes d) ->
+     (same_label d' oa' ou' p q <-> same_label d oa ou p q)).
+Proof. exact perm_independent. Qed.
+Print Assumptions C13_perm.
+
+(* any map of the plane that is injective on the drawing's points (rounding neither merges nor splits points) *)
+Theorem C13_point_map : forall (f : point -> point) (d : drawing) (oa ou oa' ou' : list point),
+  (forall a b, In a (all_nodes d) -> In b (all_nodes d) -> f a = f b -> a = b) ->
+  enum oa (all_nodes d) -> enum ou (unique_nodes d oa) ->
+  enum oa' (all_nodes (map_drawing f d)) -> enum ou' (unique_nodes (map_drawing f d) oa') ->
+  (forall p q, In p (all_nodes d) -> In q (all_nodes d) -> (connected (map_drawing f d) (f p) (f q) <-> connected d p q)) /\
+  (forall p, In p (all_nodes d) -> labelled_class d p ->
+     get_node_index (map_drawing f d) oa' ou' (f p) = get_node_index d oa ou p) /\
+  (labels_consistent d -> forall p q, In p (all_nodes d) -> In q (all_nodes d) ->
+     (same_label (map_drawing f d) oa' ou' (f p) (f q) <-> same_label d oa ou p q)).
+Proof. exact point_map_invariant. Qed.
+Print Assumptions C13_point_map.
+
+(* quarter turns, translations and integer rescalings of the grid are such maps *)
+Theorem C13_rotate : forall (d : drawing) (oa ou oa' ou' : list point),
+  enum oa (all_nodes d) -> enum ou (unique_nodes d oa) ->
+  enum oa' (all_nodes (map_drawing rot90 d)) -> enum ou' (unique_nodes (map_drawing rot90 d) oa') ->
+  (forall p q, In p (all_nodes d) -> In q (all_nodes d) -> (connected (map_drawing rot90 d) (rot90 p) (rot90 q) <-> connected d p q)) /\
+  (forall p, In p (all_nodes d) -> labelled_class d p ->
+     get_node_index (map_drawing rot90 d) oa' ou' (rot90 p) = get_node_index d oa ou p) /\
+  (labels_consistent d -> forall p q, In p (all_nodes d) -> In q (all_nodes d) ->
+     (same_label (map_drawing rot90 d) oa' ou' (rot90 p) (rot90 q) <-> same_label d oa ou p q)).
+Proof. exact rotate_invariant. Qed.
+Print Assumptions C13_rotate.
+
+Theorem C13_translate : forall (dx dy : Z) (d : drawing) (oa ou oa' ou' : list point),
+  enum oa (all_nodes d) -> enum ou (unique_nodes d oa) ->
+  enum oa' (all_nodes (map_drawing (shift dx dy) d)) -> enum ou' (unique_nodes (map_drawing (shift dx dy) d) oa') ->
+  (forall p q, In p (all_nodes d) -> In q (all_nodes d) ->
+     (connected (map_drawing (shift dx dy) d) (shift dx dy p) (shift dx dy q) <-> connected d p q)) /\
+  (forall p, In p (all_nodes d) -> labelled_class d p ->
+     get_node_index (map_drawing (shift dx dy) d) oa' ou' (shift dx dy p) = get_node_index d oa ou p) /\
+  (labels_consistent d -> forall p q, In p (all_nodes d) -> In q (all_nodes d) ->
+     (same_label (map_drawing (shift dx dy) d) oa' ou' (shift dx dy p) (shift dx dy q) <-> same_label d oa ou p q)).
+Proof. exact shift_invariant. Qed.
+Print Assumptions C13_translate.
+
+Theorem C13_rescale : forall (k : Z) (d : drawing) (oa ou oa' ou' : list point), k <> 0%Z ->
+  enum oa (all_nodes d) -> enum ou (unique_nodes d oa) ->
+  enum oa' (all_nodes (map_drawing (scale k) d)) -> enum ou' (unique_nodes (map_drawing (scale k) d) oa') ->
+  (forall p q, In p (all_nodes d) -> In q (all_nodes d) ->
+     (connected (map_drawing (scale k) d) (scale k p) (scale k q) <-> connected d p q)) /\
+  (forall p, In p (all_nodes d) -> labelled_class d p ->
+     get_node_index (map_drawing (scale k) d) oa' ou' (scale k p) = get_node_index d oa ou p) /\
+  (labels_consistent d -> forall p q, In p (all_nodes d) -> In q (all_nodes d) ->
+     (same_label (map_drawing (scale k) d) oa' ou' (scale k p) (scale k q) <-> same_label d oa ou p q)).
+Proof. exact scale_invariant. Qed.
+Print Assumptions C13_rescale.
+
+(* replacing the wire w = (a, b) by (a, m), (m, b) with a fresh point m: the classes of the old points are unchanged,
+   m joins the class of a, labelled classes keep their names and the labellings identify the same old terminals *)
+Theorem C13_subdivide : forall (d1 : drawing) (w : symbol) (d2 : drawing) (m : point) (oa ou oa' ou' : list point),
+  is_line w = true -> ~ In m (all_nodes (d1 ++ w :: d2)) ->
+  enum oa (all_nodes (d1 ++ w :: d2)) -> enum ou (unique_nodes (d1 ++ w :: d2) oa) ->
+  enum oa' (all_nodes (subdivided d1 w d2 m)) -> enum ou' (unique_nodes (subdivided d1 w d2 m) oa') ->
+  (forall p q, In p (all_nodes (d1 ++ w :: d2)) -> In q (all_nodes (d1 ++ w :: d2)) ->
+     (connected (subdivided d1 w d2 m) p q <-> connected (d1 ++ w :: d2) p q)) /\
+  connected (subdivided d1 w d2 m) m (s_start w) /\
+  (forall p, In p (all_nodes (d1 ++ w :: d2)) -> labelled_class (d1 ++ w :: d2) p ->
+     get_node_index (subdivided d1 w d2 m) oa' ou' p = get_node_index (d1 ++ w :: d2) oa ou p) /\
+  (labels_consistent (d1 ++ w :: d2) -> forall p q, In p (all_nodes (d1 ++ w :: d2)) -> In q (all_nodes (d1 ++ w :: d2)) ->
+     (same_label (subdivided d1 w d2 m) oa' ou' p q <-> same_label (d1 ++ w :: d2) oa ou p q)).
+Proof. exact subdivide_invariant. Qed.
+Print Assumptions C13_subdivide.
+
+(* the runner's order check establishes the hypotheses [enum] of every theorem above *)
+Theorem C13_orders_checked : forall (d : drawing) (oa ou : list point),
+  orders_ok d oa ou = true -> enum oa (all_nodes d) /\ enum ou (unique_nodes d oa).
+Proof. exact orders_ok_enum. Qed.
+Print Assumptions C13_orders_checked.
+
+Theorem C13_side_conditions_checked : forall d : drawing,
+  (labels_consistentb d = true -> labels_consistent d) /\ (labels_functionalb d = true -> labels_functional d).
+Proof. exact (fun d => conj (labels_consistentb_ok d) (labels_functionalb_ok d)). Qed.
+Print Assumptions C13_side_conditions_checked.
+
+(* ================= examples: the hypotheses are satisfiable by non-trivial drawings ================= *)
+Local Notation "'#' s" := (Some (lbl s)) (at level 0).
+
+(* a wire ring with a stub, with the set orders observed on the live Python objects: all hypotheses hold *)
+Example C13_ex_ring_hypotheses :
+  (orders_ok ex_ring ex_ring_oa ex_ring_ou, orders_ok ex_ring ex_ring_oa' ex_ring_ou',
+   labels_consistentb ex_ring, labels_functionalb ex_ring, List.length (wires ex_ring), List.length (unique_nodes ex_ring ex_ring_oa))
+  = (true, true, true, true, 6, 3).
+Proof. vm_compute. reflexivity. Qed.
+
+(* ... the five points of the ring-and-stub are one node, ground names the class of (0,0) and (3,0) *)
+Example C13_ex_ring_labels :
+  map (get_node_index ex_ring ex_ring_oa ex_ring_ou) [gp 0 0; gp 3 0; gp 0 1; gp 1 1; gp 2 1; gp 2 2; gp 1 2; gp 3 2]
+  = [#"0"; #"0"; #"3"; #"2"; #"2"; #"2"; #"2"; #"2"]
+  /\ ground_label ex_ring ex_ring_oa ex_ring_ou = Ok (lbl "0").
+Proof. vm_compute. split; reflexivity. Qed.
+
+(* ... another admissible order: the unlabelled classes swap their numbers, nothing else changes *)
+Example C13_ex_ring_other_order :
+  map (get_node_index ex_ring ex_ring_oa' ex_ring_ou') [gp 0 0; gp 3 0; gp 0 1; gp 1 1; gp 2 1; gp 2 2; gp 1 2; gp 3 2]
+  = [#"0"; #"0"; #"2"; #"3"; #"3"; #"3"; #"3"; #"3"].
+Proof. vm_compute. reflexivity. Qed.
+
+Example C13_ex_ring_components :
+  match components ex_ring ex_ring_oa ex_ring_ou with
+  | Ok cs => map (fun c => (kind_name (c_kind c), c_id c, c_nodes c, c_neg c)) cs
+  | Err _ => []
+  end
+  = [(lbl "dc_voltage_source", lbl "V1", [lbl "0"; lbl "3"], false); (lbl "resistor", lbl "R1", [lbl "3"; lbl "2"], false);
+     (lbl "resistor", lbl "R2", [lbl "2"; lbl "0"], false); (lbl "ground", lbl "0", [lbl "0"], false)].
+Proof. vm_compute. reflexivity. Qed.
+
+(* numeric labels '4' and '5': three labels, numbering would start at 4; 4 and 5 are skipped, the free classes get 6 and 7;
+   the reversed source has its terminals swapped *)
+Example C13_ex_numeric_labels :
+  (orders_ok ex_nums ex_nums_oa ex_nums_ou, labels_consistentb ex_nums, labels_functionalb ex_nums) = (true, true, true)
+  /\ map (get_node_index ex_nums ex_nums_oa ex_nums_ou) [gp 0 0; gp 0 1; gp 1 1; gp 2 1; gp 3 1; gp 3 0]
+     = [#"0"; #"6"; #"4"; #"5"; #"7"; #"0"]
+  /\ match components ex_nums ex_nums_oa ex_nums_ou with
+     | Ok (c :: _) => (c_id c, c_nodes c, c_neg c) = (lbl "V1", [lbl "6"; lbl "0"], false)
+     | _ => False
+     end.
+Proof. vm_compute. repeat split; reflexivity. Qed.
+
+(* the stub wire split at a fresh point, and the drawing turned by 90 degrees: hypotheses of C13_subdivide / C13_rotate *)
+Example C13_ex_subdivide_rotate :
+  (ex_ring_pre ++ ex_stub :: ex_ring_post = ex_ring) /\ is_line ex_stub = true /\ pmem ex_mid (all_nodes ex_ring) = false
+  /\ orders_ok ex_split ex_split_oa ex_split_ou = true /\ orders_ok ex_rot ex_rot_oa ex_rot_ou = true
+  /\ map (get_node_index ex_split ex_split_oa ex_split_ou) [gp 0 0; gp 3 0; gp 0 1; gp 1 1; gp 2 2; ex_mid; gp 3 2]
+     = [#"0"; #"0"; #"2"; #"3"; #"3"; #"3"; #"3"]
+  /\ map (fun p => get_node_index ex_rot ex_rot_oa ex_rot_ou (rot90 p)) [gp 0 0; gp 3 0; gp 0 1; gp 1 1; gp 2 2; gp 3 2]
+     = [#"0"; #"0"; #"2"; #"3"; #"3"; #"3"].
+Proof. vm_compute. repeat split; reflexivity. Qed.
+
+(* two texts on one class (labels_functional fails): the last inserted wins, so the insertion order is observable;
+   no ground symbol: ground_label is the first enumerated unique node *)
+Example C13_ex_two_labels_order_dependent :
+  let run d := let oa := all_nodes d in let ou := unique_nodes d oa in
+               (orders_ok d oa ou, labels_functionalb d, get_node_index d oa ou (gp 1 1), ground_label d oa ou) in
+  run ex_two_ab = (true, false, #"B", Ok (lbl "2")) /\ run ex_two_ba = (true, false, #"A", Ok (lbl "2")).
+Proof. vm_compute. split; reflexivity. Qed.
